@@ -119,10 +119,14 @@ const churnStmt = "@churn := (SELECT COUNT(UPPER(s) || STRING(INTEGER(i) * 2) ||
 
 func (c progCase) setup() string {
 	v := c.Vars
+	sacrificial := ""
+	if avoidKnownFromSubqueryOverFile {
+		sacrificial = "DECLARE ts VIEW (" + colList + ") AS SELECT " + colList + " FROM tt;\n"
+	}
 	return fmt.Sprintf("VAR @vi := %s, @vf := %s, @vs := %s, @vd := %s, @vb := %s, @vk := %s, @vn := NULL, @churn;\n", v[0], v[1], v[2], v[3], v[4], v[5]) +
 		"VAR @ci, @cf, @cs, @cd, @ck, @q1, @q2, @q3, @q4, @q5, @x1, @x2, @x3, @x4, @x5;\n" +
 		"DECLARE tt VIEW (" + colList + ") AS SELECT INTEGER(id), INTEGER(g), INTEGER(i), FLOAT(f), s, DATETIME(d), INTEGER(k), j, BOOLEAN(b) FROM t;\n" +
-		"DECLARE ts VIEW (" + colList + ") AS SELECT " + colList + " FROM tt;\n" +
+		sacrificial +
 		"DECLARE cur CURSOR FOR SELECT i, f, s, d, k FROM " + c.CurOn + " ORDER BY INTEGER(id);\n" +
 		"OPEN cur;\n" +
 		fmt.Sprintf("FETCH ABSOLUTE %d cur INTO @ci, @cf, @cs, @cd, @ck;\n", c.CurAt)
@@ -134,7 +138,18 @@ func (c progCase) probe() string {
 	for _, v := range []string{"@vi", "@vf", "@vs", "@vd", "@vb", "@vk", "@vn", "@ci", "@cf", "@cs", "@cd", "@ck"} {
 		b.WriteString("PRINT " + v + ";\n")
 	}
-	for _, at := range []int{0, c.CurAt, c.N - 1} {
+	at := []int{0, c.CurAt, c.N - 1}
+	if c.N <= 20 {
+		at = at[:0]
+		for k := 0; k < c.N; k++ {
+			at = append(at, k) // every row of the cursor
+		}
+	} else {
+		for k := 5; k < c.N; k += 13 {
+			at = append(at, k)
+		}
+	}
+	for _, at := range at {
 		fmt.Fprintf(&b, "FETCH ABSOLUTE %d cur INTO @q1, @q2, @q3, @q4, @q5;\nPRINT @q1; PRINT @q2; PRINT @q3; PRINT @q4; PRINT @q5;\n", at)
 	}
 	b.WriteString("PRINT CURSOR cur COUNT;\n")
@@ -466,7 +481,6 @@ func (c progCase) unitKind(seg string) string {
 
 var caseSeq int64
 
-var lastErr string // development aid: the error the last program stopped with
 
 func checkProgram(c progCase) (fw.Outcome, *fw.Violation) {
 	o := fw.Outcome{}
@@ -513,10 +527,6 @@ func checkProgram(c progCase) (fw.Outcome, *fw.Violation) {
 		return o, fw.Harness("generated program does not parse: %v%s", perr, show())
 	}
 	normal := execProgram(dir, c.CPU, text, pristine, false, prepared)
-	lastErr = ""
-	if normal.err != nil {
-		lastErr = normal.err.Error()
-	}
 	if normal.harness != "" {
 		return o, fw.Harness("%s%s", normal.harness, show())
 	}
@@ -728,7 +738,6 @@ func TestC14Programs(t *testing.T) {
 			"GROUP BY / set operator / analytic results are given a total order (ORDER BY on a unique key) because the order of groups is documented as undefined",
 			"divisors of / and % are non-zero literals; count-like arguments (pad lengths, precisions, positions) are drawn from 0..6",
 			"a program that stops with an error is still checked (tree snapshot, poison differential, equal output of completed repetitions) but is not counted as non-trivial",
-			"FROM-subqueries read the temporary table only while avoidKnownFromSubqueryOverFile is true (reported defect from_subquery_poisons_fileinfo)",
 		},
 	})
 }
